@@ -73,6 +73,14 @@ CHECKS = {
                      'all of what was written, close after the buffer, nothing sent after close, fatal errors signalled, writer '
                      'interest dropped',
                 note='trusted: z3/pathex, the scripted socket/fd doubles (BSD send contract; a broken connection stays broken); payloads <= 3 bytes'),
+    'C12': dict(engine='pathex', technique=TECH, ref='DESIGN.md 4/C12',
+                text='bounded symbolic execution of the real TCPServer on each real poller component over a stub kernel with scripted '
+                     'sockets, over all histories of peer actions (connect/send/half-close/abort/stop reading) interleaved with server '
+                     'writes and closes (also late) and loop iterations up to the stated length: per socket connect, read*, disconnect '
+                     'exactly, reads equal to what the peer sent, nothing after disconnect, no state retained by server, poller or '
+                     'kernel table',
+                note='trusted: z3/pathex, stub kernel and scripted sockets (readiness derived from the peer script); one recorded known '
+                     'finding (failed write after a peer reset drops unread data)'),
 }
 
 NOT_YET = {
